@@ -55,8 +55,8 @@ func VerifH_http_recv_stream() {
 	// receive limit: above every message, or (C08) below the longest one - then the first message
 	// over the limit must never be delivered, however its bytes arrive (also together with io.EOF)
 	limit := longest + 1
-	if longest >= 2 && vfBool() {
-		limit = longest - 1
+	if longest >= 2 && k <= 2 && vfBool() {
+		limit = longest - 1 // (streams of up to two messages: keeps the thorough tier within its path budget)
 	}
 	s := &streamHTTP{
 		opts: muxOptions{
